@@ -1,9 +1,9 @@
 \* the poller driving the storage, split at its waits, against an arbitrary data source and a
-\* moving head: head 0..2, <= 2 slots, <= 1 tx per slot, any number of ticks
+\* moving head: head 0..2, <= 2 slots, any number of ticks
 CONSTANTS
   MaxHead = 2
   MaxSlots = 2
-  MaxTx = 1
+  MaxTx = 2
   MaxUpd <- Unbounded
   MaxViews = 0
   MaxEnv <- Unbounded
@@ -15,8 +15,8 @@ CONSTANTS
   TxDiff <- MCTxDiff
   TxDecl <- MCTxDecl
   ClassIds <- MCClassIds
-  FullBlocks <- FullBlocksTiny
-  Deltas <- DeltasTiny
+  FullBlocks <- FullBlocksSmall
+  Deltas <- DeltasSmall
   ClassSets <- ClassSets0
   Variants = {1}
   CanonDiff <- MCCanonDiff
